@@ -582,7 +582,7 @@ pub fn run(report: &Report) -> i32 {
         "c08",
         "proptest-generated transfers terminated at a generated instant (0..3 s, incl. mid-handshake) by close() of either/both applications with any code/reason, a path blackhole, a stateless reset with the exact token, or nothing (idle timeout / keep-alive), for all idle/keep-alive settings; oracles: exactly-once ConnectionLost with an explained reason and nothing after it, none for a local close, CONNECTION_CLOSE in the first transmit after close(), Drained within 3 PTO exactly once, endpoint forgets the connection and its CIDs, idle-timeout lower/upper bounds, keep-alive holds; non-trivial = the action hit a non-quiescent connection that then drained",
         arb_term,
-        report.cases(6000, 300_000),
+        report.cases(20_000, 600_000),
         case,
     );
     report.finish("generated-input search (proptest) with termination oracles over the simulated network")
